@@ -105,6 +105,18 @@ def main():
       finally:
         sh("git -C /repo worktree remove --force %s" % wt)
       results[key] = r
+      meta = os.path.join(os.path.dirname(patch), "meta.json")
+      if not a.mutants and os.path.exists(meta):
+        try:
+          m = json.load(open(meta))
+        except Exception:
+          m = {}
+        m["property"] = pid
+        m["what_was_run"] = ("tools/seeded_run.py: patch applied to a scratch worktree of /repo@%s; pinned suite (46 stable tests) run there; "
+                             "demo.py run on the clean and the patched tree; `VERIF_REPO_ROOT=<worktree> ./check %s %s`" % (r.get("head"), pid, a.tier))
+        m["confirmed"] = {"stable_tests_still_pass": r.get("stable_tests_missing") == [], "demo_clean_rc": r.get("demo_clean_rc"),
+                          "demo_patched_rc": r.get("demo_patched_rc"), "check_status": r.get("status"), "check_keys": r.get("keys")}
+        json.dump(m, open(meta, "w"), indent=1, sort_keys=True)
       print("%-40s %s %s" % (key, r.get("status"), r.get("keys", [""])[:1]))
       json.dump(results, open(resfile, "w"), indent=1, sort_keys=True)
   finally:
